@@ -25,8 +25,6 @@ DELEGATES = [
     # key, payload callee (def path), what the argument must be, what is returned
     ("<&GenericArray<$0,$1> as core::iter::IntoIterator>::into_iter", "core::slice::<impl [T]>::iter", "view"),
     ("<&mut GenericArray<$0,$1> as core::iter::IntoIterator>::into_iter", "core::slice::<impl [T]>::iter_mut", "view"),
-    ("<&GenericArray<$0,$1> as core::convert::TryFrom<&[$0]>>::try_from", "GenericArray::<T, N>::try_from_slice", "arg"),
-    ("<&mut GenericArray<$0,$1> as core::convert::TryFrom<&mut [$0]>>::try_from", "GenericArray::<T, N>::try_from_mut_slice", "arg"),
     ("<GenericArray<$0,<typenum::Const<$1>>::IntoArrayLength::ArrayLength> as core::convert::From<[$0;$1]>>::from", "GenericArray::<T, N>::from_array", "val"),
     ("<[$0;$1] as core::convert::From<GenericArray<$0,<typenum::Const<$1>>::IntoArrayLength::ArrayLength>>>::from", "GenericArray::<T, N>::into_array", "val"),
 ]
@@ -46,7 +44,7 @@ ARRAY_TRANSMUTES = [
     "<GenericArray<$0,%s> as core::convert::AsMut<[$0;$1]>>::as_mut" % CAL,
 ]
 LIFETIME_FNS = [K + n for n in ("as_slice", "as_mut_slice", "from_slice", "try_from_slice", "from_mut_slice", "try_from_mut_slice")] + \
-    [d[0] for d in DELEGATES[:4]] + BORROWS + ARRAY_REFS + ARRAY_TRANSMUTES + [
+    [d[0] for d in DELEGATES[:2]] + ["<&GenericArray<$0,$1> as core::convert::TryFrom<&[$0]>>::try_from", "<&mut GenericArray<$0,$1> as core::convert::TryFrom<&mut [$0]>>::try_from"] + BORROWS + ARRAY_REFS + ARRAY_TRANSMUTES + [
         "<GenericArray<$0,$1> as core::ops::Deref>::deref", "<GenericArray<$0,$1> as core::ops::DerefMut>::deref_mut"]
 
 
@@ -77,55 +75,81 @@ def slice_derived(a, d):
     return pt is not None and pt.get("k") == "slice"
 
 
+REF_CONVERSIONS = [
+    # (key, kind of source, exits that may reject)
+    (K + "from_slice", "slice", "panic"), (K + "try_from_slice", "slice", "err"),
+    (K + "from_mut_slice", "slice", "panic"), (K_TRY_MUT, "slice", "err"),
+    ("<&GenericArray<$0,$1> as core::convert::TryFrom<&[$0]>>::try_from", "slice", "err"),
+    ("<&mut GenericArray<$0,$1> as core::convert::TryFrom<&mut [$0]>>::try_from", "slice", "err"),
+]
+
+
+def ok_payload_ty(t):
+    if t is not None and t.get("k") == "adt" and t["def"] == "core::result::Result":
+        return [x for x in t["args"] if x.get("k") != "region"][0]
+    return t
+
+
 def check_guards(ctx, cfg):
+    """Reference conversions slice -> array, judged per path on the body with every crate-local callee expanded (so a constructor that
+    delegates to another one, or to a private helper, is the code it runs) and the loop-free part tree-shaped (one verdict per exit)."""
     rule = "C02.G"
     n = 0
-    for key in SLICE_FNS:
+    from ..poly import prove
+    known = set()
+    for key, kind, rej in REF_CONVERSIONS:
         b = ctx.body(cfg, key, rule)
         if b is None:
             continue
-        a = ctx.analysis(cfg, key)
-        sites = [d for d in a.derefs if slice_derived(a, d) and is_ga(strip_wrappers(d["pointee"]))]
-        if not sites:
-            ctx.ob(rule, key + "#reborrow", MISSING, "no slice-to-array reborrow found in the anchored function", at=b["at"], cfg=cfg)
-        for i, d in enumerate(sites):
+        known.add(key)
+        a = ctx.analysis_inl(cfg, key, split=True, force="*", tag="conv")
+        rt = ok_payload_ty(a.local_ty(0))
+        tgt = pointee(rt) if rt is not None else None
+        N = a.tenv.length(adt_args(strip_wrappers(tgt))[1]) if tgt is not None and is_ga(strip_wrappers(tgt)) else None
+        ln = Poly.atom(("len", ("arg", 1)))
+        need = a.tenv.size(tgt) if tgt is not None else None
+        ext = a.base_extent(("arg", 1))
+        # success values: Ok payloads and plain pointer returns
+        succ = []
+        for g in a.aggregates:
+            k = g["kind"]
+            if isinstance(k, tuple) and k[0] == "adt" and k[1] == "core::result::Result" and k[2] == 0 and g["ops"] and g["ops"][0][0] == "P":
+                succ.append((g["ops"][0], g["facts"]))
+        if rej == "panic":
+            succ += [(r["val"], r["facts"]) for r in a.returns]
+        alias = bool(succ) and all(v[0] == "P" and v[1] == ("arg", 1) and not v[2].t for v, _ in succ)
+        ctx.ob("C02.A", key, alias, "success value(s): " + ", ".join(sorted({vstr(v) for v, _ in succ})) + " (must be the source slice's own address: aliasing, no copy)", at=b["at"], cfg=cfg)
+        exact = bool(succ) and need is not None and ext is not None and all(prove(("==", need - ext), a.poly_facts(f)) for _, f in succ)
+        ctx.ob(rule, key + "#exact", exact, "every success exit is reached only with source extent %r == target extent %r (len == N exactly): %s" % (ext, need, exact), at=b["at"], cfg=cfg)
+        n += 1
+        # every reborrow of the slice's pointer as an array inside the expanded body has the exact extent at that point
+        for i, d in enumerate([d for d in a.derefs if slice_derived(a, d) and is_ga(strip_wrappers(d["pointee"]))]):
             st, det = exact_extent(a, d)
-            ctx.ob(rule, "%s#reborrow#%d" % (key, i), st, det, at=b["at"], cfg=cfg)
-            ctx.sample({"rule": rule, "fn": key, "cfg": cfg, "site": det})
-            n += 1
-        check_reject_exits(ctx, cfg, a, b, key)
-        # success value is the source pointer itself
-        succ = success_values(a)
-        ok = bool(succ) and all(v[0] == "P" and v[1] == ("arg", 1) and not v[2].t for v in succ)
-        ctx.ob("C02.A", key, ok, "success value(s): " + ", ".join(vstr(v) for v in succ) + " (must be the source slice's own address: aliasing, no copy)", at=b["at"], cfg=cfg)
-    # try_from_mut_slice: delegation under the guard
-    b = ctx.body(cfg, K_TRY_MUT, rule)
-    if b is not None:
-        a = ctx.analysis(cfg, K_TRY_MUT)
-        sites = [d for d in a.derefs if slice_derived(a, d) and is_ga(strip_wrappers(d["pointee"]))]
-        calls = a.calls_to("GenericArray::<T, N>::from_mut_slice")
+            if st != PROVED:
+                ctx.ob(rule, "%s#reborrow" % key, st, det, at=b["at"], cfg=cfg)
+        # rejecting exits only under len != N
+        sites = []
+        for g in a.aggregates:
+            k = g["kind"]
+            if isinstance(k, tuple) and k[0] == "adt" and k[1] == "core::result::Result" and k[2] == 1:
+                sites.append(("Err", g["facts"]))
+        for c in a.calls:
+            if c.fn.startswith("core::panicking::") or c.key in ("from_iter_length_fail",) or (c.term.get("target") is None and not c.fn.startswith("core::hint::")):
+                sites.append(("panic", c.facts))
+        if not sites:
+            ctx.ob("C02.R", key, MISSING, "no rejecting exit (LengthError / panic) found", at=b["at"], cfg=cfg)
+        bad = sorted({"%s exit reached under %s" % (w, fstr(f)) for w, f in sites if not (N is not None and a.prove(f, "Ne", ln, N))})
         if sites:
-            for i, d in enumerate(sites):
-                st, det = exact_extent(a, d)
-                ctx.ob(rule, "%s#reborrow#%d" % (K_TRY_MUT, i), st, det, at=b["at"], cfg=cfg)
-                n += 1
-        elif calls:
-            c = calls[0]
-            ok = c.args[0][0] == "P" and c.args[0][1] == ("arg", 1) and not c.args[0][2].t and c.args[0][3] == Poly.atom(("len", ("arg", 1)))
-            ctx.ob(rule, K_TRY_MUT + "#delegate", ok, "delegates to from_mut_slice(%s) (whose own guard is checked above)" % vstr(c.args[0]), at=b["at"], cfg=cfg)
-            n += 1
-            succ = success_values(a)
-            ok = bool(succ) and all(v == c.ret for v in succ)
-            ctx.ob("C02.A", K_TRY_MUT, ok, "Ok payload is from_mut_slice's result", at=b["at"], cfg=cfg)
-        else:
-            ctx.ob(rule, K_TRY_MUT, MISSING, "neither a guarded reborrow nor a delegation to from_mut_slice found", at=b["at"], cfg=cfg)
-        check_reject_exits(ctx, cfg, a, b, K_TRY_MUT)
-    ctx.floor(rule, "slice-to-array reborrow/delegation sites (%s)" % cfg, n, 4)
+            ctx.ob("C02.R", key + "#rejects", not bad, "%d rejecting exit(s), each required to be reached only under len != N; violating: %s" % (len(sites), bad or "none"), at=b["at"], cfg=cfg)
+        if rej == "err":
+            pan = [c for c in a.calls if c.fn.startswith("core::panicking::")]
+            ctx.ob("C02.R", key + "#no_panic", not pan, "the fallible form has no panicking exit: %s" % (not pan), at=b["at"], cfg=cfg)
+        ctx.sample({"rule": rule, "fn": key, "cfg": cfg, "success": [vstr(v) for v, _ in succ][:3], "inlined": [x["callee"] for x in a.body.get("inlined", [])]})
+    ctx.floor(rule, "slice-to-array reference conversions (%s)" % cfg, n, 4)
     # generic sweep: any other slice-derived reborrow as GenericArray anywhere in the crate
-    known = set(SLICE_FNS + [K_TRY_MUT])
     db = ctx.db(cfg)
     for body in db.bodies:
-        if body["key"] in known or body["kind"] not in ("Fn", "AssocFn", "Closure"):
+        if body["key"] in known or body["kind"] not in ("Fn", "AssocFn", "Closure") or ctx.is_helper(cfg, body):
             continue
         if not any(s.get("k") == "assign" and s["rv"].get("k") == "cast" and s["rv"]["ck"] == "PtrToPtr" for blk in body["mir"]["blocks"] for s in blk["stmts"]):
             continue
@@ -191,36 +215,19 @@ def check_type_level(ctx, cfg):
         okv = c.args[0] == ("V", "arg", 1) and all(r["val"] == c.ret for r in a.returns)
         ctx.ob(rule, key, ok and okv, "const_transmute::<%s, %s>: sizes %r vs %r under the where-clauses; argument is the parameter and the result is returned: %s" % (
             tstr(c.targs[0]), tstr(c.targs[1]), sa, sb, okv), at=b["at"], cfg=cfg)
-    for key in ARRAY_REFS:
+    for key in ARRAY_REFS + ARRAY_TRANSMUTES:
         b = ctx.body(cfg, key, rule)
         if b is None:
             continue
-        a = ctx.analysis(cfg, key)
-        sites = [d for d in a.derefs if d["ptr"][0] == "P" and d["ptr"][1] == ("arg", 1)]
-        if not sites:
-            ctx.ob(rule, key, MISSING, "no reborrow of the array pointer found", at=b["at"], cfg=cfg)
-        for i, d in enumerate(sites):
-            st, det = exact_extent(a, d)
-            ctx.ob(rule, "%s#reborrow#%d" % (key, i), st, det, at=b["at"], cfg=cfg)
-        ok = all(r["val"][0] == "P" and r["val"][1] == ("arg", 1) and not r["val"][2].t for r in a.returns)
-        ctx.ob("C02.A", key, ok, "returns the source array's own address", at=b["at"], cfg=cfg)
-    for key in ARRAY_TRANSMUTES:
-        b = ctx.body(cfg, key, rule)
-        if b is None:
-            continue
-        a = ctx.analysis(cfg, key)
-        tr = [c for c in a.casts if c["ck"] == "Transmute"]
-        ok = False
-        det = "no reference transmute found"
-        if len(tr) == 1:
-            c = tr[0]
-            pf, pt = pointee(c["from"]), pointee(c["to"])
-            if pf is not None and pt is not None:
-                sf, stt = a.tenv.size(pf), a.tenv.size(pt)
-                ok = prove(("==", sf - stt), a.poly_facts(c["facts"])) and c["val"][0] == "P" and c["val"][1] == ("arg", 1) and not c["val"][2].t
-                det = "transmute &%s -> &%s: sizes %r vs %r, source is self" % (tstr(pf), tstr(pt), sf, stt)
-            ok = ok and all(r["val"] == c["val"] for r in a.returns)
-        ctx.ob(rule, key, ok, det, at=b["at"], cfg=cfg)
+        a = ctx.analysis_inl(cfg, key, split=True, force="*", tag="conv")
+        src = pointee(a.local_ty(1))
+        dst = pointee(a.local_ty(0))
+        ok_sz = src is not None and dst is not None and prove(("==", a.tenv.size(src) - a.tenv.size(dst)), a.poly_facts(frozenset()))
+        same = bool(a.returns) and all(r["val"][0] == "P" and r["val"][1] == ("arg", 1) and not r["val"][2].t for r in a.returns)
+        mut = a.local_ty(1).get("mut") == a.local_ty(0).get("mut")
+        eff = [c.fn for c in payload_calls(a) if not a.is_pure(c) and not getattr(c, "no_effects", False)]
+        ctx.ob(rule, key, ok_sz and not eff, "reinterpretation &%s -> &%s: equal symbolic sizes under the where-clauses: %s; no effectful call: %s" % (tstr(src) if src else "?", tstr(dst) if dst else "?", ok_sz, not eff), at=b["at"], cfg=cfg)
+        ctx.ob("C02.A", key, same and mut, "returns the source's own address (offset 0): %s; same mutability: %s" % (same, mut), at=b["at"], cfg=cfg)
 
 
 def check_delegates(ctx, cfg):
